@@ -261,8 +261,10 @@ class Verdict:
         self.notes = []
         self.assumptions = []
         kf = known_findings()
+        # a finding belongs to one property; other checks that necessarily run into it
+        # are named in its 'also_seen_by' list
         self._listed = {f['id']: f for f in kf.get('findings', [])
-                        if f.get('property') == pid}
+                        if f.get('property') == pid or pid in f.get('also_seen_by', [])}
 
     # -- model side
     def add_model(self, name: str, r: TLCResult, expect_violation: str | None = None):
